@@ -6,7 +6,7 @@ cd /repo && git diff --quiet || { echo "/repo dirty"; exit 9; }
 git -C /repo apply /verif/seeded/$N/patch.diff || { echo "patch does not apply"; exit 9; }
 cp /verif/evidence/$P.json /tmp/ev_$P.bak 2>/dev/null
 mkdir -p /tmp/replays_bak && rsync -a --delete /verif/replays/ /tmp/replays_bak/
-cd /verif && ./check $P $T > /tmp/try_$N.log 2>&1; RC=$?
+cd /verif && timeout 1500 ./check $P $T > /tmp/try_$N.log 2>&1; RC=$?
 git -C /repo checkout -- .
 [ -f /tmp/ev_$P.bak ] && mv /tmp/ev_$P.bak /verif/evidence/$P.json
 rsync -a --delete /tmp/replays_bak/ /verif/replays/
